@@ -88,6 +88,22 @@ impl AssemblyBuffer {
     // unwrap: u32 should fit into usize
     let from_byte = start_frag_from_0 * frag_size;
 
+    // Fragment numbering and sizes come from the wire and may be inconsistent with
+    // the DATAFRAG that created this buffer. Ignore what does not fit.
+    if start_frag_from_0 >= self.fragment_count || from_byte >= self.buffer_bytes.len() {
+      warn!(
+        "Received DATAFRAG does not fit the assembly buffer: fragment_starting_num={} \
+         fragment_count={} frag_size={} data_size={}. Ignoring.",
+        fragment_starting_num,
+        self.fragment_count,
+        frag_size,
+        self.buffer_bytes.len()
+      );
+      return;
+    }
+    let frags_in_submessage =
+      std::cmp::min(frags_in_submessage, self.fragment_count - start_frag_from_0);
+
     // Last fragment might be smaller than fragment size
     // Copy reported number of fragments, or as much data as there is, whichever
     // ends first.
